@@ -21,6 +21,8 @@ DROPPED = ['pack expansion of the static form (`(SetCore<Is>(cores), ...)`) is a
            'range-for over the vector member _cores is rewritten to an index loop (vocabulary rule)']
 ASSUMPTIONS = ['input Results are not Empty (an Empty Result is neither a value nor a failure; outside what the property states for WhenAll)',
                'every input completes exactly once (C01) - so every callback / inline consumption happens once per input']
+# real-code drivers that exercise what this unit proves (thorough tier: sanity run on the tree under check)
+DRIVERS = [('whenall_tuple.cpp', [], 'default')]
 
 COMMON = r'''
 #include "vf.h"
